@@ -1074,7 +1074,7 @@ def element_factories_rule(idx: Index, res: Result, rule: str) -> int:
     model.equations[name] and empties its memo - so a construction that is *evaluated* for a registered name (the default argument of
     dict.setdefault, `get(name) or Cls(...)` written the wrong way round, a construction hoisted above the test) silently replaces the
     user's equation by the default one while the old object is handed back."""
-    from ..util import nesting_atoms
+    from ..util import path_atoms as nesting_atoms          # nesting, guard clauses, except KeyError after a look-up
     MODEL = "BPTK_Py/modeling/model.py"
     ELEMENT_CLASSES = {"Stock", "Flow", "Biflow", "Constant", "Converter"}
     ci = idx.cls(MODEL, "Model")
